@@ -79,10 +79,13 @@ def run_scenarios(scs, cap_cpus, sd, tag):
     vplib.write_jsonl(inp, scs)
     h = vplib.build_harness()
     cmd = [h, 'pool-run', inp, outp]
+    env = dict(os.environ)
     if cap_cpus:
         cmd = ['taskset', '-c', cap_cpus] + cmd
+        # more scheduler threads than CPUs: the bound on tool processes is the number of CPUs, not GOMAXPROCS
+        env['GOMAXPROCS'] = '8'
     try:
-        p = subprocess.run(cmd, stdout=subprocess.PIPE, stderr=subprocess.PIPE, timeout=1800)
+        p = subprocess.run(cmd, stdout=subprocess.PIPE, stderr=subprocess.PIPE, timeout=1800, env=env)
     except subprocess.TimeoutExpired:
         raise Inconclusive('pool-run timeout')
     if p.returncode not in (0, 3):
@@ -269,7 +272,8 @@ def run(ck, tier):
                       'combinations; sanitize: all scripts over 4 characters up to length 6; non-trivial = fatal runs + shell vectors')
     ck.assumptions += ['stand-in processes are told what to do per task token; real shellcheck/pyflakes are not installed',
                        'interleavings of the real goroutines are sampled (seeded delays), not enumerated; the model is enumerated',
-                       'Cap is runtime.NumCPU() of the linting process, set through the CPU affinity mask (taskset)']
+                       'Cap is runtime.NumCPU() of the linting process, set through the CPU affinity mask (taskset); the capped '
+                       'groups run with GOMAXPROCS=8 (> Cap)']
     if tier == 'thorough':
         # binding self-test: drop one "rel" event -> the trace must be rejected
         k = next(i for i, ln in enumerate(lines) if '"ev": "rel"' in ln)
